@@ -16,11 +16,25 @@ import explore as ex
 from harness.common import *
 
 ID = 'C01'
-BOUNDS = {'quick': {'N': 3}, 'thorough': {'N': 4}}
+BOUNDS = {'quick': {'N': 3, 'NUM': 5}, 'thorough': {'N': 4, 'NUM': 7}}
 
 
-def configs(N):
-    return [(L, sh) for L in range(N + 1) for sh in compositions(L)]
+def configs(N, NUM=0):
+    cfgs = [(L, sh) for L in range(N + 1) for sh in compositions(L)]
+    # number-shaped inputs: longer, every byte symbolic within the number-token alphabet 0-9 . e E + -
+    cfgs += [(L, 'num') for L in range(N + 1, NUM + 1)]
+    return cfgs
+
+
+def numeric_constraints(bs):
+    cs = []
+    for b in bs:
+        cs.append(z3.Or(z3.And(z3.UGE(b, z3.BitVecVal(0x30, 8)), z3.ULE(b, z3.BitVecVal(0x39, 8))),
+                        b == 0x2E, b == 0x65, b == 0x45, b == 0x2B, b == 0x2D))
+    # starts with a digit, so the whole input is one number token candidate
+    if bs:
+        cs.append(z3.And(z3.UGE(bs[0], z3.BitVecVal(0x30, 8)), z3.ULE(bs[0], z3.BitVecVal(0x39, 8))))
+    return cs
 
 
 def prepare(it):
@@ -28,12 +42,18 @@ def prepare(it):
 
 
 def harness(it, px, params):
-    cfgs = configs(params['N'])
+    cfgs = configs(params['N'], params.get('NUM', 0))
     k = pick_config(px, 'cfg', len(cfgs))
     L, shape = cfgs[k]
     bs = [px.bv('b%d' % i, 8) for i in range(L)]
-    for c in utf8_constraints(bs, shape):
-        px.add(c)
+    if shape == 'num':
+        for c in numeric_constraints(bs):
+            px.add(c)
+        shape = (1,) * L
+        px.cover('numeric-family')
+    else:
+        for c in utf8_constraints(bs, shape):
+            px.add(c)
     px.get_model()
     s = Str(tuple(bs))
     rec = {'len': L, 'shape': list(shape)}
@@ -101,7 +121,7 @@ def native_outcome(obs, stage):
 
 def run(ctx):
     N = BOUNDS[ctx.tier]['N']
-    params = {'N': N, 'seed': ctx.seed, 'timeout_ms': 10000 if ctx.tier == 'quick' else 60000,
+    params = {'N': N, 'NUM': BOUNDS[ctx.tier]['NUM'], 'seed': ctx.seed, 'timeout_ms': 10000 if ctx.tier == 'quick' else 60000,
               'step_limit': 400000}
     eng = ctx.engine('dev')
     recs, summ = ex.explore(eng, harness, params, prepare=prepare)
@@ -122,7 +142,7 @@ def judge(ctx, recs, summ, params):
     covers = set()
     for r in recs:
         covers.update(r.get('covers', []))
-    for need in ('parse-ok', 'parse-err', 'multibyte', 'exec-ok', 'exec-err'):
+    for need in ('parse-ok', 'parse-err', 'multibyte', 'exec-ok', 'exec-err', 'numeric-family'):
         if need not in covers:
             inconclusive.append('vacuity: cover point %s never reached' % need)
     # group findings
@@ -200,6 +220,7 @@ def judge(ctx, recs, summ, params):
             'traces_validated_against_impl': validated, 'samples': samples,
             'exhaustive': not summ.get('truncated') and not inconclusive,
             'bound': {'input_bytes_max': params['N'], 'utf8_shapes': len(configs(params['N'])),
+                      'number_alphabet_family_bytes_max': params.get('NUM', 0),
                       'step_limit_per_path': params['step_limit']},
             'path_status': by_status, 'path_outcomes': outcomes,
             'solver': {'engine': 'z3 ' + z3.get_version_string(), 'queries_sat': summ['sat'], 'queries_unsat': summ['unsat'],
